@@ -24,7 +24,7 @@ vars == <<w, files, ix, qobj, resp>>
 EmptyF   == [schema |-> <<>>, n |-> 0, V |-> <<>>]
 NoWriter == [kind |-> "none", rows |-> <<>>, done |-> FALSE]
 Absent   == [kind |-> "absent", f |-> EmptyF, ver |-> 0]
-Closed   == [open |-> FALSE, mode |-> "none", f |-> EmptyF]
+Closed   == [open |-> FALSE, mode |-> "none", f |-> EmptyF, obs |-> 0]
 R(k)     == [kind |-> k]
 
 Init == /\ w = [p \in Paths |-> NoWriter]
@@ -92,7 +92,7 @@ Flush(p) ==
 Open(p, mode) ==
   /\ ~ix[p].open
   /\ IF files[p].kind = "index"
-     THEN /\ ix' = [ix EXCEPT ![p] = [open |-> TRUE, mode |-> mode, f |-> files[p].f]]
+     THEN /\ ix' = [ix EXCEPT ![p] = [open |-> TRUE, mode |-> mode, f |-> files[p].f, obs |-> 0]]
           /\ resp' = [kind |-> "open", ok |-> TRUE]
      ELSE /\ resp' = [kind |-> "open", ok |-> FALSE] /\ UNCHANGED ix
   /\ UNCHANGED <<w, files, qobj>>
@@ -123,13 +123,15 @@ Exec(p, i) ==
      IN /\ resp' = [kind |-> "exec", p |-> p, e |-> q.e, gb |-> q.gb,
                     res |-> IF ok THEN ExecAlgo(ix[p].f, q.e, eff) ELSE ErrRes]
         /\ qobj' = IF KeepGroupByScratch /\ ok THEN [qobj EXCEPT ![i].scratch = eff] ELSE qobj
-  /\ UNCHANGED <<w, files, ix>>
+  /\ ix' = [ix EXCEPT ![p].obs = @ + 1]              \* IndexMetrics: exactly one observation per Execute, also on error
+  /\ UNCHANGED <<w, files>>
 
 (* One-shot form used by most drivers: a fresh Query per call. *)
 ExecFresh(p, e, gb) ==
   /\ ix[p].open
   /\ resp' = [kind |-> "exec", p |-> p, e |-> e, gb |-> gb, res |-> ExecAlgo(ix[p].f, e, gb)]
-  /\ UNCHANGED <<w, files, ix, qobj>>
+  /\ ix' = [ix EXCEPT ![p].obs = @ + 1]
+  /\ UNCHANGED <<w, files, qobj>>
 
 (* ------------------------------ properties ------------------------------ *)
 \* C01 + C02: every answer is the declarative one for the rows that were added
@@ -139,6 +141,7 @@ QueryObjectsStable == [][\A i \in DOMAIN qobj : qobj'[i].e = qobj[i].e /\ qobj'[
 \* C05
 SchemaCorrect == resp.kind = "schema" => resp.schema = SchemaOf(w[resp.p].rows)
 RoundTrip == \A p \in Paths : ix[p].open => ix[p].f = FileOf(w[p].rows)
+\* the ExecuteDuration metric of an open handle has seen exactly one observation per Execute call (ix[p].obs)
 WritersAgreeLib == \A p \in Paths : files[p].kind = "index" => files[p].f = FileOf(w[p].rows)
 \* C16: only a successful Flush / creating the big writer's output / planting changes a file
 ReadOnlyOps == [][files' # files => resp'.kind \in {"flush", "newwriter", "plant"}]_vars
